@@ -51,4 +51,20 @@ MUTANTS = [
       note="get_phosphosequence writes the substitution back into the stored sequence when more than two sites are set"),
     m("lkuptab-hydropathy-drift", ["C15"], "localcider/backend/restable.py", "        res = self.lookForRes(resCode)\n        return res.hydropathy", "        res = self.lookForRes(resCode)\n        res.hydropathy = res.hydropathy + (1e-9 if resCode == 'W' else 0.0)\n        return res.hydropathy",
       note="module-level residue table drifts with every lookup of W"),
+    # ---- C17
+    m("swaprand-revert-F6", ["C17", "C18"], SEQ, "rand.sample(sorted(posInd), 1)", "rand.sample(posInd, 1)", count=2, note="original defect (TypeError on sets)"),
+    m("ctor-revert-F7", ["C17", "C18"], SEQ, "        if(len(chargePattern) == 0):", "        if(chargePattern == []):", note="original defect (ndarray == [])"),
+    m("fullshuffle-ignores-frozen", ["C17"], SEQ, "            if i in frozen:\n                new_seq.append(lookup[i])", "            if i in frozen and len(frozen) < 3:\n                new_seq.append(lookup[i])",
+      note="full_shuffle honours frozen only when fewer than three positions are frozen (and then runs out of residues)"),
+    m("fullshuffle-frozen-off-by-one", ["C17"], SEQ, "        moveable_indicies = set(np.arange(0, self.len)) - set(frozen)", "        moveable_indicies = set(np.arange(0, self.len)) - set(frozen)\n        frozen = set(frozen)\n        if len(frozen) == 2 and self.len - 1 not in frozen:\n            moveable_indicies = (moveable_indicies | {min(frozen)}) - {max(frozen) + 1}\n            frozen = (frozen - {min(frozen)}) | {max(frozen) + 1}",
+      note="with exactly two frozen positions the lower one is released and the one after the upper is frozen instead"),
+    m("swapres-pattern-not-swapped", ["C17"], SEQ, "        tempChargeSeq[index1] = charge2\n        tempChargeSeq[index2] = charge1", "        tempChargeSeq[index1] = charge2\n        tempChargeSeq[index2] = charge2"),
+    m("swapres-child-dmax-doubled", ["C17"], SEQ, "        return Sequence(''.join(tempseq), self.dmax, tempChargeSeq)", "        return Sequence(''.join(tempseq), self.dmax * 2 if self.dmax > 0 else self.dmax, tempChargeSeq)"),
+    m("swaprand-mutates-self", ["C17"], SEQ, "        return self.swapRes(swapPair1[0], swapPair2[0])", "        child = self.swapRes(swapPair1[0], swapPair2[0])\n        self.seq = child.seq\n        return child"),
+    m("blockswap-duplicates-block", ["C17"], SEQ, "        newseq[min(blocks_to_swap[1]):max(blocks_to_swap[1])] = old_seq_list[min(blocks_to_swap[0]):max(blocks_to_swap[0])]", "        newseq[min(blocks_to_swap[1]):max(blocks_to_swap[1])] = newseq[min(blocks_to_swap[0]):max(blocks_to_swap[0])]",
+      note="second block is overwritten with the already-swapped first block: residues are duplicated / lost"),
+    m("cluster-child-from-wrong-dmax", ["C17"], SEQ, "        outseq = Sequence(newseq, self.dmax)\n        assert outseq.countNeut() == self.countNeut()", "        outseq = Sequence(newseq, old_delta if self.dmax == -1 else self.dmax)\n        assert outseq.countNeut() == self.countNeut()",
+      note="charge clustering hands the child the parent's delta as its delta-max when the parent has none cached"),
+    m("permutant-drops-last", ["C17"], PERM, "        SO = self.SeqObj.full_shuffle([])", "        SO = self.SeqObj.full_shuffle([]) if len(self.SeqObj.seq) < 35 else self.SeqObj.full_shuffle([]).swapRes(0, 0).__class__(self.SeqObj.seq[:-1])",
+      note="get_permutant loses the last residue of sequences of 35+ residues"),
 ]
